@@ -17,6 +17,10 @@
   C05.TOK    the tokenizer's character iterator reads string[pos] only while pos < len(that same string).
   C05.POOL   whoever caches the engines built from formula strings (the caller of ResampledFormulaBuilder.from_string)
              keys the cache by everything that decides which expression over which inputs the engine evaluates.
+  C05.VALUE  expressions are values: every operator / method of the composition API is interpreted (clone spellings
+             modelled the way Python copies) and must leave the token deque of `self` and of the operand untouched.
+  C05.IDENT  both build() methods key an operand engine's stream by the engine's identity (a lookup by id(engine) / the
+             engine); the table of names is injective and stable by construction.
   C05.ALIGN  the operands of one evaluation belong to one timestamp (first-run synchronisation; shared
              with C06.SYNC).
 
@@ -688,24 +692,40 @@ def check_tab(run: Run, prog: Program) -> None:
             and ffl.cfg.path(body0[0], [mn], edge_ok=e_me) is not None and ffl.cfg.path(body0[0], [on], edge_ok=e_me) is None
     run.check(ok, "C05.TAB", fs.qual, "every token pushed in order",
               "tokens are not pushed one by one in input order with their own value", node=fs.node, file=fs.file)
-    # HO builders handle what _push can emit
-    push = prog.func(f"{ENGINE}:_BaseHOFormulaBuilder._push")
-    emitted = {n.attr for n in ast.walk(push.node) if isinstance(n, ast.Attribute) and u(n.value) == "TokenType"}
-    for cname, exc in (("HigherOrderFormulaBuilder", set()), ("HigherOrderFormulaBuilder3Phase", {"CONSTANT"})):
+    check_ho_kinds(run, prog)
+
+
+def check_ho_kinds(run: Run, prog: Program) -> None:
+    """C05.TAB (composition API, sibling agreement): every token kind the operator methods can append to a builder
+    (COMPONENT_METRIC, OPER, CONSTANT -- read from _push, consumption, production and the helpers they call) is handled
+    by BOTH build() methods; a build() without a branch for a kind drops those tokens silently and compiles a malformed
+    step list (a dangling operator: every evaluation raises, the engine never emits a sample)."""
+    cls = prog.cls(f"{ENGINE}:_BaseHOFormulaBuilder")
+    producers: list[FuncInfo] = []
+    for nm in ("_push", "consumption", "production", "__init__"):
+        m = prog.resolve_method(cls, nm)
+        if m is not None:
+            producers.append(m)
+            producers.extend(transitive_helpers(Flow(prog, m)))
+    emitted = {n.attr for f_ in producers for n in ast.walk(f_.node) if isinstance(n, ast.Attribute) and u(n.value) == "TokenType"}
+    if not {"COMPONENT_METRIC", "OPER"} <= emitted:
+        raise AnalysisError(f"{cls.qual}: the token kinds the builder records could not be read ({sorted(emitted)})")
+    for cname, exc in (("HigherOrderFormulaBuilder", set()), ("HigherOrderFormulaBuilder3Phase", set())):
         b = prog.func(f"{ENGINE}:{cname}.build")
         run.analysed(b.qual)
         # build() and the private helpers it does the replay through
         units = [b] + transitive_helpers(Flow(prog, b))
         handled = {n.attr for f_ in units for n in ast.walk(f_.node) if isinstance(n, ast.Attribute) and u(n.value) == "TokenType"}
         run.check(emitted - exc <= handled, "C05.TAB", b.qual, f"build handles {sorted(handled)}",
-                  f"the builder can hold {sorted(emitted)} tokens but build() handles only {sorted(handled)}",
+                  f"the builder can hold {sorted(emitted)} tokens but build() handles only {sorted(handled)}: the tokens of the missing kind are "
+                  "dropped without a word and the compiled steps are malformed (an operator without its operand) -- every evaluation raises, "
+                  "FormulaEngine._run drops every round, the composed engine never emits a sample",
                   node=b.node, file=b.file)
-        if exc:
-            run.note(f"{b.qual}: CONSTANT tokens are not handled (three-phase formulas with constants "
-                     "are outside the string/2-operand API exercised by the property) — frozen exception")
         ok = any(isinstance(s, ast.For) and u(s.iter) == "self._steps" for f_ in units for s in body_walk(f_.node))
         run.check(ok, "C05.TAB", b.qual, "tokens replayed in order", "tokens are not replayed in order",
                   node=b.node, file=b.file)
+
+
 
 
 # ---------------------------------------------------------------------------------------------
@@ -794,34 +814,123 @@ class DequeModel(list):
     pass
 
 
+_BUILDER_CLASSES = ("_BaseHOFormulaBuilder", "HigherOrderFormulaBuilder", "HigherOrderFormulaBuilder3Phase")
+
+
 class HOInterp(HelperCalls, Interp):
-    """Interprets _push / consumption / production on a token deque with abstract operands."""
+    """Interprets the operator methods of the composition API (and what they delegate to: _push, _clone, helpers) on
+    token deques with abstract operands.  Objects are copied the way Python copies them -- `copy.copy(builder)` shares
+    the token deque until the attribute is re-bound (`.copy()`, `deque(...)`, `copy.copy / deepcopy(<deque>)`);
+    `type(self).__new__(type(self))`, `type(self)(...)` / `self.__class__(...)` and `__dict__.update` are the
+    hand-written spellings of a clone -- and every in-place change of a deque is logged with the call and the method
+    it sits in (C05.VALUE names them)."""
 
     def __init__(self, prog: Program, module: Any) -> None:
         super().__init__()
         self.prog = prog
         self.module = module
+        self.mutations: list[tuple[int, str, ast.AST, str]] = []  # (id(deque), deque method, call, enclosing function)
+        self.fn_stack: list[str] = []
+
+    def call_node(self, fn: Any, args: dict[str, Any], closure_env: dict[str, Any] | None = None) -> Any:
+        self.fn_stack.append(getattr(fn, "name", "<lambda>"))
+        try:
+            return super().call_node(fn, args, closure_env)
+        finally:
+            self.fn_stack.pop()
 
     def unknown_name(self, ident: str, node: ast.AST) -> Any:
-        if ident in ("isinstance", "len", "bool", "list", "tuple", "all", "any"):
+        if ident in ("isinstance", "len", "bool", "list", "tuple", "all", "any", "deque", "type", "vars", "id"):
             return ("builtin", ident)
         if ident == "TokenType":
             return Obj("TokenType")
-        if ident in ("FormulaEngine", "FormulaEngine3Phase", "Quantity", "float", "int",
-                     "_BaseHOFormulaBuilder", "RuntimeError"):
+        if ident == "copy":
+            return Obj("module:copy")
+        if ident in _BUILDER_CLASSES:
+            return ident
+        if ident in ("FormulaEngine", "FormulaEngine3Phase", "Quantity", "float", "int", "RuntimeError", "TypeError", "ValueError"):
             return ident
         raise AnalysisError(f"name {ident} not modelled in the HO-builder interpreter")
+
+    @staticmethod
+    def _shallow(v: Any) -> Any:
+        if isinstance(v, DequeModel):
+            return DequeModel(v)
+        if isinstance(v, Obj):
+            return Obj(v.cls, **v.fields)  # the fields are shared: a copied builder still holds the SAME deque
+        if isinstance(v, (list, dict, set)):
+            return type(v)(v)
+        return v
+
+    def _deep(self, v: Any) -> Any:
+        if isinstance(v, DequeModel):
+            return DequeModel(v)  # the tokens themselves are immutable pairs; engines keep their identity in the model
+        if isinstance(v, Obj) and v.cls == "Builder":
+            return Obj(v.cls, **{k: self._deep(x) if isinstance(x, DequeModel) else x for k, x in v.fields.items()})
+        return self._shallow(v)
 
     def get_attr(self, base: Any, attr: str, node: ast.AST) -> Any:
         if isinstance(base, Obj) and base.cls == "TokenType":
             return f"TT.{attr}"
-        if isinstance(base, DequeModel) and attr in ("appendleft", "append", "extend", "popleft", "extendleft", "clear", "copy"):
+        if isinstance(base, Obj) and base.cls == "module:copy" and attr in ("copy", "deepcopy"):
+            return ("builtin", f"copy.{attr}")
+        if isinstance(base, DequeModel) and attr in ("appendleft", "append", "extend", "popleft", "pop", "extendleft", "clear", "copy", "insert",
+                                                     "__copy__"):
             return ("deque", base, attr)
+        if isinstance(base, Obj) and base.cls == "Builder" and attr == "__class__":
+            return ("builderclass", base)
+        if isinstance(base, Obj) and base.cls == "Builder" and attr == "__dict__":
+            return base.fields
+        if isinstance(base, tuple) and base and base[0] == "builderclass" and attr == "__new__":
+            return ("buildernew", base[1])
+        if isinstance(base, dict) and attr == "update":
+            return ("dictupdate", base)
+        if isinstance(base, dict) and attr == "copy":
+            return ("dictcopy", base)
         return super().get_attr(base, attr, node)
 
+    def set_attr(self, base: Any, attr: str, v: Any, node: ast.AST) -> None:
+        if isinstance(base, Obj) and attr == "__dict__" and isinstance(v, dict):
+            keep = {k: x for k, x in base.fields.items() if k == "kinds"}
+            base.fields.clear()
+            base.fields.update(keep)
+            base.fields.update(v)
+            return
+        super().set_attr(base, attr, v, node)
+
+    def _new_builder(self, like: Obj) -> Obj:
+        return Obj("Builder", kinds=set(like.fields.get("kinds", {"_BaseHOFormulaBuilder"})))
+
     def apply(self, fn: Any, pos: list[Any], kw: dict[str, Any], node: ast.AST) -> Any:
+        if isinstance(fn, tuple) and fn and fn[0] == "buildernew":
+            return self._new_builder(fn[1])
+        if isinstance(fn, tuple) and fn and fn[0] == "builderclass":
+            # a constructor call: a new builder initialised by the class's own __init__
+            me = self._new_builder(fn[1])
+            init = self.helper_prog.resolve_method(self.helper_cls, "__init__") if self.helper_prog is not None and self.helper_cls is not None else None
+            if init is None:
+                raise AnalysisError("constructor of the builder not found in the HO-builder interpreter")
+            self.call_node(init.node, self.bind_args(init.node, pos, kw, self_value=me), {})
+            return me
+        if isinstance(fn, tuple) and fn and fn[0] == "dictupdate":
+            fn[1].update(pos[0] if pos else {})
+            fn[1].update(kw)
+            return None
+        if isinstance(fn, tuple) and fn and fn[0] == "dictcopy":
+            return dict(fn[1])
         if isinstance(fn, tuple) and fn[0] == "deque":
             _, d, m = fn
+            if m not in ("copy", "__copy__"):
+                self.mutations.append((id(d), m, node, self.fn_stack[-1] if self.fn_stack else "?"))
+            if m == "pop":
+                if not d:
+                    raise _Raise("IndexError", node)
+                return list.pop(d)
+            if m == "insert":
+                list.insert(d, pos[0], pos[1])
+                return None
+            if m == "__copy__":
+                return DequeModel(d)
             if m == "appendleft":
                 d.insert(0, pos[0])
             elif m == "append":
@@ -845,6 +954,18 @@ class HOInterp(HelperCalls, Interp):
         return super().apply(fn, pos, kw, node)
 
     def builtin(self, name: str, pos: list[Any], kw: dict[str, Any], node: ast.AST) -> Any:
+        if name == "copy.copy" and len(pos) == 1:
+            return self._shallow(pos[0])
+        if name == "copy.deepcopy" and pos:
+            return self._deep(pos[0])
+        if name == "deque":
+            return DequeModel(list(self.iterate(pos[0], node)) if pos else [])
+        if name == "type" and len(pos) == 1 and isinstance(pos[0], Obj) and pos[0].cls == "Builder":
+            return ("builderclass", pos[0])
+        if name == "vars" and len(pos) == 1 and isinstance(pos[0], Obj):
+            return pos[0].fields
+        if name == "id" and len(pos) == 1:
+            return ("id", id(pos[0]))
         if name == "isinstance":
             v, classes = pos
             classes = classes if isinstance(classes, tuple) else (classes,)
@@ -1068,15 +1189,91 @@ def same_value(a: Any, b: Any, seed: int = 5) -> tuple[bool, str]:
     return True, ""
 
 
+OPERATOR_METHODS = {"+": "__add__", "-": "__sub__", "*": "__mul__", "/": "__truediv__", "max": "max", "min": "min"}
+
+
+def _ho_method(prog: Program, name: str) -> FuncInfo:
+    cls = prog.cls(f"{ENGINE}:_BaseHOFormulaBuilder")
+    m = prog.resolve_method(cls, name)
+    if m is None:
+        raise AnalysisError(f"{cls.qual}.{name} not found")
+    return m
+
+
+def apply_public(prog: Program, mod: Any, meth: FuncInfo, state: list[Any], other_factory: Any = None) -> list[tuple[Any, dict[str, Any]]]:
+    """Interpret one public method of the composition API (`a + b`, `a.max(b)`, `a.consumption()` ...) on a builder holding
+    `state`: [(outcome, run record)] with the builder, its token deque as it was handed in, the operand (and its deque),
+    the tokens of the returned builder, and the in-place deque changes made on the way."""
+    it = HOInterp(prog, mod).bind_helpers(prog, meth)
+    runs: list[dict[str, Any]] = []
+
+    def make_args() -> dict[str, Any]:
+        me = Obj("Builder", kinds={"_BaseHOFormulaBuilder"}, _steps=DequeModel(state), _create_method=Obj("create_method"))
+        rec: dict[str, Any] = {"me": me, "store": me.fields["_steps"], "before": list(state), "other": None, "ostore": None, "obefore": None,
+                               "mark": len(it.mutations)}
+        args: dict[str, Any] = {"self": me}
+        if other_factory is not None:
+            other = other_factory()
+            rec["other"] = other
+            if isinstance(other, Obj) and isinstance(other.fields.get("_steps"), DequeModel):
+                rec["ostore"] = other.fields["_steps"]
+                rec["obefore"] = list(other.fields["_steps"])
+            if len(meth.params) < 2:
+                raise AnalysisError(f"{meth.qual}: no operand parameter")
+            args[meth.params[1]] = other
+        runs.append(rec)
+        return args
+
+    outs = it.explore(meth.node, make_args)
+    if len(outs) != len(runs):
+        raise AnalysisError(f"{meth.qual}: {len(runs)} abstract runs but {len(outs)} outcomes in the HO-builder interpreter")
+    for k, rec in enumerate(runs):
+        rec["muts"] = it.mutations[rec["mark"]: runs[k + 1]["mark"] if k + 1 < len(runs) else len(it.mutations)]
+        v = outs[k].value if outs[k].kind == "return" else None
+        rec["result"] = list(v.fields["_steps"]) if isinstance(v, Obj) and isinstance(v.fields.get("_steps"), (DequeModel, list)) else None
+        rec["returned"] = v
+    return list(zip(outs, runs))
+
+
+def value_findings(meth: FuncInfo, rec: dict[str, Any]) -> list[tuple[str, ast.AST | None]]:
+    """C05.VALUE on one interpreted call: what it did to the token store of `self` and of the operand."""
+    out: list[tuple[str, ast.AST | None]] = []
+    for who, obj, store, before in (("self", rec["me"], rec["store"], rec["before"]), ("the operand", rec["other"], rec["ostore"], rec["obefore"])):
+        if store is None:
+            continue
+        now = obj.fields.get("_steps")
+        calls = [(m, node, fname) for did, m, node, fname in rec["muts"] if did == id(store)]
+        if now is store and list(store) == before and not calls:
+            continue
+        if calls:
+            m, node, fname = calls[0]
+            shared = rec["returned"] is not obj and isinstance(rec["returned"], Obj) and rec["returned"].fields.get("_steps") is store
+            what = (f"`{u(node)[:70]}` in {fname}() changes the token store of {who} in place"
+                    + (" -- the builder it is called on is a shallow copy that still holds the very deque of " + who if shared else "")
+                    + (f" ({len(calls)} such calls: " + ", ".join(sorted({f'{x[2]}(): .{x[0]}' for x in calls})) + ")" if len(calls) > 1 else ""))
+            out.append((what, node))
+        else:
+            out.append((f"the token store of {who} is re-bound / holds {_fmt(list(now) if isinstance(now, list) else [])} after the call instead of "
+                        f"{_fmt(before)}", None))
+    return out
+
+
+VALUE_TEXT = ("expressions are values: `s = a + b; x = s * 2.0; y = s - c` must leave `s` denoting a + b -- an operator or method of the "
+              "composition API that extends the token store of the builder it is applied to (or of its operand) and hands the same object "
+              "back makes every later use of that expression see the operator applied by the earlier one (y evaluates ((a + b) * 2.0) - c; "
+              "s / (s + c) is not even well-formed).  The store that is extended has to be one made on that path: a clone whose token "
+              "deque is a copy (copy.copy(self) alone still shares the deque), or a new builder")
+
+
 def check_paren(run: Run, prog: Program) -> None:
     push = prog.func(f"{ENGINE}:_BaseHOFormulaBuilder._push")
     run.analysed(push.qual)
     mod = prog.module(ENGINE)
     OP = lambda s: ("TT.OPER", s)  # noqa: E731
     rhs_shapes = {
-        "engine": (Obj("Engine", kinds={"FormulaEngine"}, label="e1"), lambda o: [("TT.COMPONENT_METRIC", o)]),
-        "quantity": (Obj("Q", kinds={"Quantity"}, label="q1"), lambda o: [("TT.CONSTANT", o)]),
-        "float": (Obj("Flt", kinds={"float"}, label="c1"), lambda o: [("TT.CONSTANT", o)]),
+        "engine": (lambda: Obj("Engine", kinds={"FormulaEngine"}, label="e1"), lambda o: [("TT.COMPONENT_METRIC", o)]),
+        "quantity": (lambda: Obj("Q", kinds={"Quantity"}, label="q1"), lambda o: [("TT.CONSTANT", o)]),
+        "float": (lambda: Obj("Flt", kinds={"float"}, label="c1"), lambda o: [("TT.CONSTANT", o)]),
     }
     builder_tokens = [
         ["Y"],
@@ -1086,73 +1283,60 @@ def check_paren(run: Run, prog: Program) -> None:
     n = 0
     first_level: list[tuple[str, str, list[Any]]] = []  # (operator, operand shape, resulting tokens) of every accepted first push
     for oper in ("+", "-", "*", "/", "max", "min"):
-        scenarios: list[tuple[str, Any, list[Any]]] = []
-        for name, (obj, want) in rhs_shapes.items():
+        meth = _ho_method(prog, OPERATOR_METHODS[oper])
+        run.analysed(meth.qual)
+        scenarios: list[tuple[str, Any, Any]] = []
+        for name, (mk_obj, want) in rhs_shapes.items():
             if name == "quantity" and oper in ("*", "/"):
                 continue
             if name == "float" and oper in ("+", "-", "max", "min"):
                 continue
-            scenarios.append((name, obj, want(obj)))
+            scenarios.append((name, mk_obj, want))
         for i, toks in enumerate(builder_tokens):
-            b = Obj("Builder", kinds={"_BaseHOFormulaBuilder"}, _steps=DequeModel(toks))
-            scenarios.append((f"builder#{i}", b, [OP("(")] + toks + [OP(")")]))
-        for name, other, want_rhs in scenarios:
-            it = HOInterp(prog, mod).bind_helpers(prog, push)
-            selfs: list[Obj] = []
-
-            def make_args(other=other, oper=oper) -> dict[str, Any]:
-                me = Obj("Builder", kinds={"_BaseHOFormulaBuilder"}, _steps=DequeModel(["X"]))
-                selfs.append(me)
-                return {"self": me, "oper": oper, "other": other}
-
-            outs = it.explore(push.node, make_args)
-            for out, me in zip(outs, selfs):
+            scenarios.append((f"builder#{i}", (lambda toks=toks: Obj("Builder", kinds={"_BaseHOFormulaBuilder"}, _steps=DequeModel(toks))),
+                              (lambda o, toks=toks: [OP("(")] + toks + [OP(")")])))
+        bad_value: list[tuple[str, str, ast.AST | None]] = []
+        for name, mk_other, want_rhs in scenarios:
+            for out, rec in apply_public(prog, mod, meth, ["X"], mk_other):
                 n += 1
-                got = list(me.fields["_steps"])
-                want = [OP("("), "X", OP(")"), OP(oper)] + want_rhs
-                ok = out.kind == "return" and got == want and out.value is me
-                if out.kind == "return":
+                got = rec["result"] if rec["result"] is not None else []
+                want = [OP("("), "X", OP(")"), OP(oper)] + want_rhs(rec["other"])
+                ok = out.kind == "return" and rec["result"] is not None and got == want
+                if out.kind == "return" and rec["result"] is not None:
                     first_level.append((oper, name, got))
-                run.check(ok, "C05.PAREN", push.qual, f"_push('{oper}', {name})",
-                          f"builder tokens become {_fmt(got)} instead of {_fmt(want)}: the left operand "
-                          "and a builder right operand must each be enclosed in their own parentheses, "
-                          "otherwise the flattened token stream regroups under operator precedence",
-                          node=push.node, file=push.file, instance=f"_push('{oper}', {name})")
+                run.check(ok, "C05.PAREN", meth.qual, f"{meth.name}({name})",
+                          (f"the returned builder holds {_fmt(got)} instead of {_fmt(want)}: the left operand "
+                           "and a builder right operand must each be enclosed in their own parentheses, "
+                           "otherwise the flattened token stream regroups under operator precedence") if out.kind == "return" and rec["result"] is not None
+                          else f"`{meth.name}` with a {name} operand {out.kind}s {out.value!r} instead of a builder holding {_fmt(want)}",
+                          node=meth.node, file=meth.file, instance=f"_push('{oper}', {name})")
+                for what, node in value_findings(meth, rec):
+                    bad_value.append((name, what, node))
+        run.check(not bad_value, "C05.VALUE", meth.qual, f"`{meth.name}` leaves its operands as they are",
+                  (f"{bad_value[0][1]} (operand shape {bad_value[0][0]}"
+                   + (f"; {len(bad_value)} findings over the operand shapes" if len(bad_value) > 1 else "") + f"): {VALUE_TEXT}") if bad_value else "",
+                  node=(bad_value[0][2] if bad_value and bad_value[0][2] is not None else meth.node), file=meth.file,
+                  instance=f"{meth.qual}: neither self's nor the operand's token store changes ({len(scenarios)} operand shapes)")
     n += _check_chains(run, prog, push, mod, first_level)
     for fname in ("consumption", "production"):
-        fn = prog.func(f"{ENGINE}:_BaseHOFormulaBuilder.{fname}")
+        fn = _ho_method(prog, fname)
         run.analysed(fn.qual)
-        it = HOInterp(prog, mod).bind_helpers(prog, fn)
-        selfs2: list[Obj] = []
-
-        def mk() -> dict[str, Any]:
-            me = Obj("Builder", kinds={"_BaseHOFormulaBuilder"}, _steps=DequeModel(["X"]))
-            selfs2.append(me)
-            return {"self": me}
-
-        outs = it.explore(fn.node, mk)
-        for out, me in zip(outs, selfs2):
+        bad_value = []
+        for out, rec in apply_public(prog, mod, fn, ["X"]):
             n += 1
-            got = list(me.fields["_steps"])
+            got = rec["result"] if rec["result"] is not None else []
             want = [OP("("), "X", OP(")"), OP(fname)]
-            run.check(out.kind == "return" and got == want and out.value is me, "C05.PAREN", fn.qual,
-                      f"{fname}()", f"builder tokens become {_fmt(got)} instead of {_fmt(want)}",
+            run.check(out.kind == "return" and rec["result"] is not None and got == want, "C05.PAREN", fn.qual,
+                      f"{fname}()", f"the returned builder holds {_fmt(got)} instead of {_fmt(want)}",
                       node=fn.node, file=fn.file)
+            for what, node in value_findings(fn, rec):
+                bad_value.append(("-", what, node))
+        run.check(not bad_value, "C05.VALUE", fn.qual, f"`{fname}` leaves the builder it is applied to as it is",
+                  f"{bad_value[0][1]}: {VALUE_TEXT}" if bad_value else "",
+                  node=(bad_value[0][2] if bad_value and bad_value[0][2] is not None else fn.node), file=fn.file,
+                  instance=f"{fn.qual}: self's token store does not change")
     if n < 30:
         raise AnalysisError(f"C05.PAREN: only {n} builder scenarios interpreted")
-    # the operator methods delegate to _push with their own symbol
-    cls = prog.cls(f"{ENGINE}:_BaseHOFormulaBuilder")
-    for meth, sym in (("__add__", "+"), ("__sub__", "-"), ("__mul__", "*"), ("__truediv__", "/"),
-                      ("max", "max"), ("min", "min")):
-        m = cls.methods[meth]
-        run.analysed(m.qual)
-        rets = [r for r in body_walk(m.node) if isinstance(r, ast.Return)]
-        rv = rets[0].value if len(rets) == 1 else None
-        pa = positional(rv, ["oper", "other"]) if isinstance(rv, ast.Call) and method_call(rv, "self", "_push") else {}
-        ok = len(pa) == 2 and isinstance(pa["oper"], ast.Constant) and pa["oper"].value == sym and u(pa["other"]) == m.params[1] \
-            and len(rv.args) + len(rv.keywords) == 2  # type: ignore[union-attr]
-        run.check(ok, "C05.PAREN", m.qual, f"{meth} -> _push('{sym}', other)",
-                  f"`{meth}` does not push the operator `{sym}` with its operand", node=m.node, file=m.file)
     # the engine-level operators start a builder with the engine as left operand
     eng = prog.cls(f"{ENGINE}:FormulaEngine")
     for meth in ("__add__", "__sub__", "__mul__", "__truediv__", "max", "min", "consumption", "production"):
@@ -1205,22 +1389,22 @@ def _check_chains(run: Run, prog: Program, push: FuncInfo, mod: Any, first_level
             held = stream_tree(state)
         except Ambiguous:
             return None, None, "skip"  # the first push already left a malformed stream: reported there
-        other, toks = operand(shape, tag)
-        want = (oper, held, stream_tree(toks))
-        it = HOInterp(prog, mod).bind_helpers(prog, push)
-        mes: list[Obj] = []
+        made: list[tuple[Any, list[Any]]] = []
 
-        def make_args() -> dict[str, Any]:
-            me = Obj("Builder", kinds={"_BaseHOFormulaBuilder"}, _steps=DequeModel(state))
-            mes.append(me)
-            return {"self": me, push.params[1]: oper, push.params[2]: other}
+        def mk_other() -> Any:
+            made.append(operand(shape, tag))
+            return made[-1][0]
 
-        outs = it.explore(push.node, make_args)
-        if len(outs) != 1:
-            return None, want, f"{len(outs)} abstract paths"
-        if outs[0].kind != "return" or outs[0].value is not mes[0]:
-            return None, want, f"the push {outs[0].kind}s {outs[0].value if outs[0].kind == 'raise' else 'something other than the builder'}"
-        got = list(mes[0].fields["_steps"])
+        meth = _ho_method(prog, OPERATOR_METHODS[oper])
+        res = apply_public(prog, mod, meth, state, mk_other)
+        want = (oper, held, stream_tree(made[0][1])) if made else None
+        if len(res) != 1:
+            return None, want, f"{len(res)} abstract paths"
+        out0, rec = res[0]
+        want = (oper, held, stream_tree(made[-1][1]))
+        if out0.kind != "return" or rec["result"] is None:
+            return None, want, f"the push {out0.kind}s {out0.value if out0.kind == 'raise' else 'something other than a builder'}"
+        got = rec["result"]
         try:
             tree = stream_tree(got)
         except Ambiguous as exc:
@@ -1827,7 +2011,7 @@ def check_ho_build(run: Run, prog: Program) -> None:
     push_oper(<its value>), a CONSTANT token push_constant(<its value / base value>); the three-phase builder does
     so for each of its three per-phase builders and hands them on in phase order."""
     for cname, kinds, phases in (("HigherOrderFormulaBuilder", ("COMPONENT_METRIC", "OPER", "CONSTANT"), 1),
-                                 ("HigherOrderFormulaBuilder3Phase", ("COMPONENT_METRIC", "OPER"), 3)):
+                                 ("HigherOrderFormulaBuilder3Phase", ("COMPONENT_METRIC", "OPER", "CONSTANT"), 3)):
         raw = prog.func(f"{ENGINE}:{cname}.build")
         run.analysed(raw.qual)
         fl = Flow(prog, spliced(prog, raw))
@@ -1926,6 +2110,9 @@ def _replay_ok(fl: Flow, kinds: tuple[str, ...], phases: int) -> tuple[bool, str
         cfg = fl.cfg
         loops = [h for h in cfg.nodes if h.kind == "for" and h.id in fl.live and isinstance(h.ast.target, ast.Tuple)  # type: ignore[union-attr]
                  and len(h.ast.target.elts) == 2 and all(o.kind == "expr" and u(o.node) == "self._steps" for o in fl.origin(h.ast.iter, h.id))]  # type: ignore[union-attr]
+        # the replay loop is the one that pushes (another pass over the tokens -- naming the engines, counting -- is not)
+        push_nodes = {nid for nid, _c in fl.calls(lambda c: isinstance(c.func, ast.Attribute) and c.func.attr in want.values())}
+        loops = [h for h in loops if push_nodes & cfg.reachable([m for m, lab in cfg.succ[h.id] if lab == "iter"], avoid=[h.id])] if len(loops) > 1 else loops
         ok = len(loops) == 1
         detail = "no replay loop over the recorded tokens"
         if ok:
@@ -1951,7 +2138,7 @@ def _replay_ok(fl: Flow, kinds: tuple[str, ...], phases: int) -> tuple[bool, str
                 e_k = kind_is(kind)
                 reach = [(nid, c) for nid, c in pushes if cfg.path(body0[0], [nid], edge_ok=e_k) is not None]
                 names = {c.func.attr for _n, c in reach}  # type: ignore[union-attr]
-                ok = ok and names == {want[kind]} and (len(reach) == 1 or (kind == "CONSTANT" and phases == 1))
+                ok = ok and names == {want[kind]} and (len(reach) == 1 or kind == "CONSTANT")
                 detail = f"a {kind} token is replayed through {sorted(names) or 'nothing'} instead of {want[kind]}() exactly once"
                 if not ok:
                     break
@@ -2519,6 +2706,230 @@ def _intact_params(fl: Flow, e: ast.AST, nid: int, fuel: int = 6, root: Flow | N
     return out
 
 
+def _name_leaves(flow: Any, nid: int, expr: ast.AST, fuel: int = 8) -> list[tuple[Any, int, ast.AST]]:
+    """The parts a computed name is made of: formatted values of f-strings, operands of `+` / `%`, arguments of str() /
+    format() / join(), alternatives of conditional expressions, locals and helper parameters followed back."""
+    from .c13 import origin_x
+
+    out: list[tuple[Any, int, ast.AST]] = []
+    for alt in select_ifexp(expr, lambda e: None):
+        if isinstance(alt, ast.JoinedStr):
+            for v in alt.values:
+                if isinstance(v, ast.FormattedValue):
+                    out.extend(_name_leaves(flow, nid, v.value, fuel))
+        elif isinstance(alt, ast.BinOp) and isinstance(alt.op, (ast.Add, ast.Mod)):
+            out.extend(_name_leaves(flow, nid, alt.left, fuel) + _name_leaves(flow, nid, alt.right, fuel))
+        elif isinstance(alt, (ast.Tuple, ast.List)):
+            for x in alt.elts:
+                out.extend(_name_leaves(flow, nid, x, fuel))
+        elif isinstance(alt, ast.Call) and (u(alt.func) in ("str", "repr") or (isinstance(alt.func, ast.Attribute) and alt.func.attr in ("format", "join"))):
+            for a in list(alt.args) + [k.value for k in alt.keywords]:
+                out.extend(_name_leaves(flow, nid, a, fuel))
+        elif isinstance(alt, ast.Constant):
+            continue
+        elif isinstance(alt, ast.Name) and fuel > 0:
+            for o in origin_x(flow, alt, nid):
+                if o.kind == "expr" and o.node is not None and o.nid is not None and o.node is not alt:
+                    out.extend(_name_leaves(o.flow, o.nid, o.node, fuel - 1))
+                else:
+                    out.append((o.flow, o.nid if o.nid is not None else nid, alt))
+        else:
+            out.append((flow, nid, alt))
+    return out
+
+
+def _is_token_value(flow: Any, nid: int, e: ast.AST) -> bool:
+    """`e` is an element of a traversal (loop / comprehension variable): the engine a token carries."""
+    from .c13 import origin_x
+
+    o = origin_x(flow, e, nid) if isinstance(e, ast.Name) else []
+    return bool(o) and all(q.kind == "iter" for q in o)
+
+
+def _identity_key(flow: Any, nid: int, k: ast.AST) -> bool:
+    """`id(<engine>)` or the engine object itself (through a local)."""
+    from .c13 import origin_x
+
+    if isinstance(k, ast.Call) and u(k.func) == "id" and len(k.args) == 1 and not k.keywords:
+        return _is_token_value(flow, nid, k.args[0])
+    if isinstance(k, ast.Name):
+        if _is_token_value(flow, nid, k):
+            return True
+        o = origin_x(flow, k, nid)
+        return bool(o) and all(q.kind == "expr" and q.node is not None and q.nid is not None and q.node is not k
+                               and _identity_key(q.flow, q.nid, q.node) for q in o)
+    return False
+
+
+def _keyed_lookup(e: ast.AST) -> tuple[ast.AST, ast.AST] | None:
+    """(map, key) of `M[k]`, `M.get(k, ...)`, `M.setdefault(k, ...)`."""
+    if isinstance(e, ast.Subscript) and isinstance(e.ctx, ast.Load):
+        return e.value, e.slice
+    if isinstance(e, ast.Call) and isinstance(e.func, ast.Attribute) and e.func.attr in ("get", "setdefault", "__getitem__") and e.args:
+        return e.func.value, e.args[0]
+    return None
+
+
+def operand_keys(prog: Program) -> list[dict[str, Any]]:
+    """For every push_metric both build() methods can execute: what the key (first argument) is made of, and which parts
+    of it depend on the *identity* of the operand engine -- a lookup keyed by id(engine) / the engine, or id(engine) itself."""
+    from .c13 import push_sites
+
+    pm = prog.func(f"{ENGINE}:FormulaBuilder.push_metric")
+    pparams = [p for p in pm.params if p != "self"]
+    out: list[dict[str, Any]] = []
+    for cname in ("HigherOrderFormulaBuilder", "HigherOrderFormulaBuilder3Phase"):
+        b = prog.func(f"{ENGINE}:{cname}.build")
+        root, psites = push_sites(prog, b)
+        for pfl, nid, c in psites:
+            a = positional(c, pparams).get(pparams[0]) if pparams else None
+            leaves = _name_leaves(pfl, nid, a) if a is not None else []
+            ident: list[tuple[Any, int, ast.AST, ast.AST | None]] = []  # (flow, node, leaf, map | None)
+            by_attr: list[str] = []
+            for f2, n2, leaf in leaves:
+                lk = _keyed_lookup(leaf)
+                if lk is not None and _identity_key(f2, n2, lk[1]):
+                    ident.append((f2, n2, leaf, lk[0]))
+                elif isinstance(leaf, ast.Call) and _identity_key(f2, n2, leaf):
+                    ident.append((f2, n2, leaf, None))
+                elif isinstance(leaf, ast.Attribute) and _is_token_value(f2, n2, leaf.value):
+                    by_attr.append(u(leaf))
+            out.append({"build": b, "root": root, "flow": pfl, "nid": nid, "call": c, "arg": a, "leaves": leaves, "ident": ident, "by_attr": by_attr})
+    return out
+
+
+def _provider_findings(prog: Program, fl: Flow, d_nodes: set[int] | None = None) -> tuple[int, list[tuple[str, ast.AST | None]]]:
+    """The map that hands out the names (a dict filled in the function of `fl`): (number of stores judged, findings).
+    Injective by construction -- a store of a name is unreachable while "that name is already in use" holds -- and stable --
+    unreachable while "this engine already has a name" holds (or written with setdefault) -- and keyed by identity."""
+    cfg = fl.cfg
+    findings: list[tuple[str, ast.AST | None]] = []
+    stores: list[tuple[int, ast.AST, ast.AST, ast.AST, bool]] = []  # (node, map, key, value, keeps first)
+    for n in cfg.nodes:
+        if n.id not in fl.live or n.ast is None:
+            continue
+        if n.kind == "stmt" and isinstance(n.ast, (ast.Assign, ast.AnnAssign)) and n.ast.value is not None:
+            for t in (n.ast.targets if isinstance(n.ast, ast.Assign) else [n.ast.target]):
+                if isinstance(t, ast.Subscript):
+                    stores.append((n.id, t.value, t.slice, n.ast.value, False))
+        for part in own_parts(n):
+            for x in ast.walk(part):
+                if isinstance(x, ast.Call) and isinstance(x.func, ast.Attribute) and x.func.attr == "setdefault" and len(x.args) == 2:
+                    stores.append((n.id, x.func.value, x.args[0], x.args[1], True))
+                if isinstance(x, ast.DictComp) and any(isinstance(r.ast, ast.Return) for r in [n]):
+                    findings.append((f"the names are made by a comprehension `{u(x)[:70]}`: nothing compares a name with the names already handed out", x))
+    # the maps in question: the given ones (by the expression that made them), else the ones that are returned
+    wanted: set[int] = set(d_nodes or ())
+    if d_nodes is None:
+        for r in fl.returns():
+            v = cfg.nodes[r].ast.value  # type: ignore[union-attr]
+            if v is not None:
+                wanted |= {id(o.node) for o in fl.origin(v, r, through_helpers=False) if o.kind == "expr" and o.node is not None}
+    stores = [st for st in stores if isinstance(st[1], ast.Name) and any(
+        o.kind == "expr" and id(o.node) in wanted for o in fl.origin(st[1], st[0], through_helpers=False))]
+    judged = 0
+    for sn, m, key, val, keeps_first in stores:
+        judged += 1
+        assert isinstance(m, ast.Name)
+        if not _identity_key(fl, sn, key):
+            findings.append((f"`{u(m)}[{u(key)}]` is not keyed by the identity of the engine (id(engine) / the engine object)", key))
+            continue
+        ktxt, vtxt, mtxt = u(key), u(val), m.id
+
+        def in_use(e: ast.AST, _nid: int) -> bool | None:
+            """`<the stored name> in <names in use>`"""
+            if isinstance(e, ast.Compare) and len(e.ops) == 1 and isinstance(e.ops[0], (ast.In, ast.NotIn)) and u(e.left) == vtxt:
+                c = u(e.comparators[0]).replace(" ", "")
+                pool = c in (f"{mtxt}.values()", f"set({mtxt}.values())", f"list({mtxt}.values())") or (
+                    isinstance(e.comparators[0], ast.Name) and e.comparators[0].id != mtxt and any(
+                        isinstance(x, ast.Call) and isinstance(x.func, ast.Attribute) and x.func.attr in ("add", "append") and u(x.func.value) == c
+                        and len(x.args) == 1 and u(x.args[0]) == vtxt for x in ast.walk(fl.fn.node)))
+                if pool:
+                    return isinstance(e.ops[0], ast.In)
+            return None
+
+        def has_name(e: ast.AST, _nid: int) -> bool | None:
+            """`<this engine's key> in <the map>`"""
+            if isinstance(e, ast.Compare) and len(e.ops) == 1 and isinstance(e.ops[0], (ast.In, ast.NotIn)) and u(e.left) == ktxt \
+                    and u(e.comparators[0]).replace(" ", "") in (mtxt, f"{mtxt}.keys()"):
+                return isinstance(e.ops[0], ast.In)
+            return None
+
+        if cfg.path(cfg.entry, [sn], edge_ok=pruned(cfg, lifted(fl, in_use))) is not None:
+            findings.append((f"`{u(m)}[{ktxt}] = {vtxt}` can be reached with `{vtxt}` already handed to another engine: no test of the name "
+                             f"against the names in use (`{vtxt} in {mtxt}.values()`) stands between the choice of the name and the store", val))
+        if not keeps_first and cfg.path(cfg.entry, [sn], edge_ok=pruned(cfg, lifted(fl, has_name))) is not None:
+            findings.append((f"`{u(m)}[{ktxt}] = {vtxt}` can be reached for an engine that already has a name (`{ktxt} in {mtxt}` is not "
+                             "looked up first): an engine used twice gets two names, i.e. two fetchers on one stream", key))
+    return judged, findings
+
+
+IDENT_TEXT = ("FormulaBuilder.push_metric keeps ONE MetricFetcher per key, so inside a composition the key is the operand's identity: two "
+              "different engines under one key are read as the same operand (`p / v` with both engines named '#4' emits 1.0, `f1 - f2` "
+              "emits 0), an engine under two keys is fetched twice per round.  Names are not identities -- FormulaEnginePool names every "
+              "string formula by its text whatever the metric, users build engines under any name they like")
+
+
+def check_ident(run: Run, prog: Program) -> None:
+    """C05.IDENT ("every expression tree built through the Python operator/method API"): both build() methods push an operand
+    engine's stream under a key that separates different engines -- derived through a lookup keyed by id(engine) / the engine
+    object (or id(engine) itself), not only from an attribute two engines can share -- and the map that provides the names is
+    injective and stable by construction."""
+    sites = operand_keys(prog)
+    if not sites:
+        raise AnalysisError("C05.IDENT: no push_metric() reachable from the build() methods")
+    judged_providers: set[int] = set()
+    for st in sites:
+        b, c = st["build"], st["call"]
+        run.analysed(b.qual)
+        inst = f"{b.qual}: the key of `{u(c.func)}` depends on the operand engine's identity"
+        run.check(bool(st["ident"]), "C05.IDENT", b.qual, f"key of the operand stream `{u(st['arg'])[:60]}`",
+                  f"the stream of an operand engine is pushed under `{u(st['arg'])[:80]}`, which depends on the engine only through "
+                  f"{st['by_attr'] or 'nothing'} -- an attribute any two engines can share: {IDENT_TEXT}.  The key has to come out of a "
+                  "lookup by id(engine) / by the engine object (a per-build table of names), or contain id(engine)",
+                  node=c, file=st["flow"].fn.file, instance=inst)
+        for f2, n2, leaf, m in st["ident"]:
+            if m is None:
+                continue
+            # who fills the map
+            from .c13 import origin_x
+
+            provs: list[tuple[Flow, set[int] | None]] = []
+            for o in (origin_x(f2, m, n2) if isinstance(m, ast.Name) else []):
+                call = unawait_call(o.node) if o.kind == "expr" else None
+                tgt = private_callee(prog, o.flow.fn, call) if call is not None else None
+                if tgt is not None:
+                    provs.append((Flow(prog, tgt), None))
+                elif o.kind == "expr" and (isinstance(o.node, (ast.Dict, ast.DictComp)) or (isinstance(o.node, ast.Call) and u(o.node.func) in ("dict", "defaultdict"))):
+                    provs.append((o.flow, {id(o.node)}))
+            if not provs:
+                run.violation("C05.IDENT", b.qual, f"provider of `{u(m)}`",
+                              f"cannot see who fills `{u(m)}`, the table the operand keys are read from (`{u(leaf)[:60]}`): whether a name is "
+                              "handed to two engines cannot be judged", node=leaf, file=f2.fn.file)
+                continue
+            for pfl, dn in provs:
+                if id(pfl.fn.node) in judged_providers:
+                    continue
+                judged_providers.add(id(pfl.fn.node))
+                run.analysed(pfl.fn.qual)
+                judged, findings = _provider_findings(prog, pfl, dn)
+                if not judged and not findings:
+                    findings = [(f"{pfl.fn.name}() never stores a name under an engine's identity", None)]
+                import re as _re
+
+                findings = [(_re.sub(r"__[A-Za-z_]+\d+\b", "", t_), n_) for t_, n_ in findings]  # (suffixes of the splicer's renamed locals)
+                run.check(not findings, "C05.IDENT", pfl.fn.qual, "names by identity: one per engine, never one for two engines",
+                          (f"{findings[0][0]}" + (f" (and {len(findings) - 1} more)" if len(findings) > 1 else "") + f".  {IDENT_TEXT}") if findings else "",
+                          node=(findings[0][1] if findings and findings[0][1] is not None else pfl.fn.node), file=pfl.fn.file,
+                          instance=f"{pfl.fn.qual}: a name in use is never handed out again; an engine keeps its name")
+
+
+def unawait_call(e: ast.AST | None) -> ast.Call | None:
+    while isinstance(e, ast.Await):
+        e = e.value
+    return e if isinstance(e, ast.Call) else None
+
+
 def check_names(run: Run, prog: Program) -> None:
     """C05.POOL (engine names) -- "every expression tree built through the Python operator/method API of formula engines":
     HigherOrderFormulaBuilder.build() registers each operand engine under that engine's *name*
@@ -2530,27 +2941,21 @@ def check_names(run: Run, prog: Program) -> None:
     caller is the caller's contract."""
     from ..engine.normalize import _bind
 
-    # premise, read from the code: operands of a composition are keyed by an attribute of the operand engine
-    hb = prog.func(f"{ENGINE}:HigherOrderFormulaBuilder.build")
-    pm = prog.func(f"{ENGINE}:FormulaBuilder.push_metric")
-    pparams = [p for p in pm.params if p != "self"]
-    from .c13 import push_sites
-
-    _root, psites = push_sites(prog, hb)
+    # premise, read from the code: operands of a composition are keyed by a name attribute of the operand engine alone
+    # (when the keys depend on the engines' identity -- C05.IDENT -- names are free and this clause is vacuous)
     keyed_by_name = False
     key_txt = ""
-    for pfl, nid, c in psites:
-        a = positional(c, pparams).get(pparams[0]) if pparams else None
-        for o in (pfl.origin(a, nid) if a is not None else []):
-            if o.kind == "expr" and isinstance(o.node, ast.Attribute) and "name" in o.node.attr.lower():
-                keyed_by_name = True
-                key_txt = u(o.node)
+    for st in operand_keys(prog):
+        named = [t for t in st["by_attr"] if "name" in t.lower()]
+        if named and not st["ident"]:
+            keyed_by_name = True
+            key_txt = named[0]
     rfb = prog.cls(f"{RFB}:ResampledFormulaBuilder")
     fs = prog.resolve_method(rfb, "from_string")
     if fs is None:
         raise AnalysisError(f"{rfb.qual}.from_string not found")
     if not keyed_by_name:
-        run.ok("C05.POOL", "compositions do not key their operand engines by name: engine names are free")
+        run.ok("C05.POOL", "compositions key their operand engines by identity (C05.IDENT), not by name alone: engine names are free")
         return
     bound = _name_attr_param(prog, rfb)
     if bound is None:
@@ -2706,6 +3111,53 @@ def build_controls(prog: Program) -> list[tuple[str, str, str, str, str]]:
                     f'{ind}    self._steps.append((TokenType.CONSTANT, self._steps.pop()[1] / {ot_}))\n'
                     f'{ind}    return self\n')
             add("scalar divisor folded into the previous one", ENGINE, src_patch(eng, first.lineno, first.lineno, lambda t, fold=fold: fold + t), "C05.PAREN")
+    # VALUE: an operator applied in place (the clone is skipped); a clone that shares the token deque
+    for mname in ("__sub__", "max", "__add__"):
+        m_ = ho.methods.get(mname)
+        if m_ is None:
+            continue
+        clones = [c for c in walk(m_, ast.Call) if isinstance(c.func, ast.Attribute) and u(c.func.value) == "self" and not c.args and not c.keywords
+                  and c.func.attr.startswith("_") and prog.resolve_method(ho, c.func.attr) is not None]
+        if not clones:
+            continue
+        c0 = clones[0]
+        ctxt = seg(eng, c0)
+        add(f"`{mname}` applied in place", ENGINE, stmt_patch(m_, c0, lambda t, ctxt=ctxt: t.replace(ctxt, "self", 1)), "C05.VALUE")
+        cl = prog.resolve_method(ho, c0.func.attr)  # type: ignore[union-attr]
+        if cl is not None:
+            for a_ in walk(cl, ast.Assign):
+                if len(a_.targets) == 1 and isinstance(a_.targets[0], ast.Attribute) and a_.targets[0].attr == "_steps" and u(a_.targets[0].value) != "self":
+                    add("the clone shares the token deque", ENGINE, stmt_patch(cl, a_, lambda t: f"{indent_of(t)}pass\n"), "C05.VALUE")
+                    break
+        break
+    # IDENT: operand streams keyed by the engines' names again; the name table hands a name in use out again
+    pm_params = [p_ for p_ in prog.func(f"{ENGINE}:FormulaBuilder.push_metric").params if p_ != "self"]
+    hb0 = prog.func(f"{ENGINE}:HigherOrderFormulaBuilder.build")
+    for c in walk(hb0, ast.Call):
+        if isinstance(c.func, ast.Attribute) and c.func.attr == "push_metric" and pm_params:
+            a0 = positional(c, pm_params).get(pm_params[0])
+            ids = [x for x in ast.walk(a0) if isinstance(x, ast.Call) and u(x.func) == "id" and len(x.args) == 1] if a0 is not None else []
+            if a0 is not None and ids and hasattr(a0, "lineno"):
+                atxt, vtxt = seg(eng, a0), seg(eng, ids[0].args[0])
+                add("operand streams keyed by the engine's name", ENGINE, src_patch(
+                    eng, a0.lineno, a0.end_lineno or a0.lineno, lambda t, atxt=atxt, vtxt=vtxt: t.replace(atxt, f"{vtxt}._name", 1)), "C05.IDENT")
+            break
+    for m_ in ho.methods.values():
+        wh = [w for w in walk(m_, ast.While) if isinstance(w.test, ast.Compare) and len(w.test.ops) == 1 and isinstance(w.test.ops[0], ast.In)
+              and ".values()" in u(w.test.comparators[0])]
+        if wh:
+            ttxt = seg(eng, wh[0].test)
+            add("a name in use is handed out again", ENGINE, src_patch(
+                eng, wh[0].lineno, wh[0].test.end_lineno or wh[0].lineno, lambda t, ttxt=ttxt: t.replace(ttxt, "False", 1)), "C05.IDENT")
+            break
+    # TAB: the three-phase build() loses its branch for constants
+    hb3 = prog.func(f"{ENGINE}:HigherOrderFormulaBuilder3Phase.build")
+    for cmp_ in walk(hb3, ast.Compare):
+        if "TokenType.CONSTANT" in u(cmp_):
+            ctxt = seg(eng, cmp_)
+            add("three-phase build() drops constant tokens", ENGINE, src_patch(
+                eng, cmp_.lineno, cmp_.end_lineno or cmp_.lineno, lambda t, ctxt=ctxt: t.replace(ctxt, "False", 1)), "C05.TAB")
+            break
     # POOL: the cache of string formulas keyed by the formula text alone
     rfb_cls = prog.cls(f"{RFB}:ResampledFormulaBuilder")
     for fn_ in prog.all_functions():
@@ -2727,8 +3179,8 @@ def build_controls(prog: Program) -> list[tuple[str, str, str, str, str]]:
         if not any(isinstance(c, ast.Call) and isinstance(c.func, ast.Attribute) and c.func.attr == "from_string" for c in ast.walk(fn_.node)):
             continue
         bound = _name_attr_param(prog, rfb_cls)
-        if bound is None:
-            break
+        if bound is None or any(st["ident"] for st in operand_keys(prog)):
+            break  # (with identity-keyed operands the names are free: nothing to fire)
         from ..engine.normalize import _bind as _bind_args
         done_n = False
         for c in (c for c in ast.walk(fn_.node) if isinstance(c, ast.Call) and isinstance(c.func, (ast.Name, ast.Subscript))
@@ -2830,7 +3282,7 @@ def build_controls(prog: Program) -> list[tuple[str, str, str, str, str]]:
     # ALIGN: drain loops of the first-run synchronisation interchanged
     add("drain loops interchanged", EVAL, interchange_patch(prog), "C05.ALIGN")
     if len(out) < 6:
-        raise AnalysisError(f"C05: only {len(out)} of 20 seeded controls could be derived from the source ({[o[0] for o in out]})")
+        raise AnalysisError(f"C05: only {len(out)} of 25 seeded controls could be derived from the source ({[o[0] for o in out]})")
     return out
 
 
@@ -2846,6 +3298,7 @@ def run_rules(run: Run, prog: Program) -> None:
     check_ho_build(run, prog)
     check_fresh(run, prog)
     check_pool(run, prog)
+    check_ident(run, prog)
     check_names(run, prog)
     check_shared(run, prog)
     from .c06 import check_sync as first_run_sync
@@ -2861,6 +3314,10 @@ def check(run: Run, prog: Program, tier: str) -> str:
     run.rule("C05.STEP", "each step computes first-pushed OP last-pushed and leaves exactly one value")
     run.rule("C05.PAREN", "HO builder: X -> ( X ) op Y with Y atom or ( Y' ), for several shapes of Y'; pushes on the resulting "
              "states keep the meaning (held) op operand (left-associative chains, no re-associating rewrite of recorded tokens)")
+    run.rule("C05.VALUE", "expressions are values: no operator / method of the composition API changes the token store of the builder it is "
+             "applied to or of its operand; what is extended is a clone whose deque is a copy, or a new builder")
+    run.rule("C05.IDENT", "both build() methods push an operand engine's stream under a key derived from the engine's identity (lookup by "
+             "id(engine) / the engine), and the table of names never hands one name to two engines nor two names to one engine")
     run.rule("C05.EVAL", "all steps applied in order on a fresh stack; one residual; LIFO finalize; shared fetcher")
     run.rule("C05.TOK", "the tokenizer's character iterator reads string[pos] only while pos < len(that same string), from 0")
     run.rule("C05.POOL", "a cache of engines built from formula strings is keyed by every parameter that selects the expression or "
@@ -2881,6 +3338,8 @@ def check(run: Run, prog: Program, tier: str) -> str:
     run.floor("C05.STEP", 10)
     run.floor("C05.PAREN", 70)
     run.floor("C05.EVAL", 6)
+    run.floor("C05.VALUE", 8)
+    run.floor("C05.IDENT", 2)
     run.floor("C05.TOK", 6)
     run.floor("C05.POOL", 1)
     run.floor("C05.FRESH", 2)
